@@ -120,6 +120,19 @@ def VOp.under (fileLen : Nat) : VOp → Op
   | .vread base subs o n => .read (viewStart base subs + o) n
   | .vuntil base subs r d => .until_ ⟨viewStart base subs + r.lo, viewStart base subs + r.hi⟩ d
 
+/-- the wrapper refuses the call before it reaches the cache (shifted offset overflows `u64`, :1081 / :1090 /
+:1091; inverted range, :1087) -/
+def VOp.refused : VOp → Bool
+  | .vread base subs o _ => decide (U64 ≤ viewStart base subs + o)
+  | .vuntil base subs r _ =>
+    decide (r.hi < r.lo) || decide (U64 ≤ viewStart base subs + r.lo) || decide (U64 ≤ viewStart base subs + r.hi)
+  | _ => false
+
+/-- what the wrapper does with the outcome of the cache-level call -/
+def VOp.post : VOp → Out (List UInt8) → Out (List UInt8)
+  | .entire, o => o
+  | _, o => discardErr o
+
 /-- the error a view call reports when the byte source fails -/
 def VOp.srcErr : VOp → Err
   | .entire => .source
